@@ -27,7 +27,13 @@ Summary
 * `C15_loop_reorder` …             the re-ordering search of four-curve `edge_curves`;
 * `C15_ruled`, `C15_extrude`       two-curve / two-face filling and extrusion;
 * `C15_edge_surfaces_6`            trilinear transfinite interpolation of six faces;
-* `C15_const_par_curve_partial`    constant-parameter curves.
+* `C15_section_model`, `C15_ruled_model`, `C15_extrude_model`  the same about the executable model
+                                   (numpy slicing `takeAxis` ↔ `secNet`, `stack2` ↔ ruled net);
+* `C15_const_par_curve` (+ `_eval_u/_eval_v`)  constant-parameter curves of the model, complete for
+                                   non-periodic cut directions;
+* `C15_edge_surfaces_6_net`, `C15_edge_surfaces_6_net_eval`, `C15_model_tri_entry`  six faces at
+                                   control-net level;
+* `C15_translated_*`               the utilities re-translated from the Python AST equal the hand model.
 -/
 
 open Splipy Splipy.Sections
